@@ -27,6 +27,7 @@ from .. import textgen as T
 
 PROP = "C12"
 PROP_V = "theories/props/C12.v"
+MODEL_AREAS = ('front',)
 
 OUTSIDE = list("@#$~!?\"^`") + ["\x00", "\x7f", "\x80", "\xc3\xa9", "\xff"]
 WS = set(" \t\n\v\r")
